@@ -3,8 +3,11 @@ package p_errors
 
 import (
 	"bytes"
+	"context"
 	"encoding/json"
+	stderrors "errors"
 	"fmt"
+	"io"
 	"strings"
 	"unicode/utf8"
 
@@ -73,10 +76,130 @@ var distinct = func() []Class {
 
 func distinctClasses() []Class { return distinct }
 
-// Wrap is one fmt.Errorf level: fmt.Errorf("%s%w%s", Pre, err, Post) - the texts are taken verbatim.
+// Wrap is one level of wrapping around the error built so far (the "main" error, the one that holds the class).
+//
+//	Kind ""     fmt.Errorf("%s%w%s", Pre, err, Post) - the texts are taken verbatim. With Sides it is a fmt.Errorf with
+//	            several %w verbs: the operands are the side errors with the main error put in at index Pos, the
+//	            format is Pre %w Mid %w Mid ... %w Post.
+//	Kind "join" errors.Join over the same operand list (texts unused); with no Sides a Join of one error.
+//	Kind "grpc" errors.GRPCWrap(err): a lower layer of the program has already converted its error for the wire
+//	            (or the error arrived from a downstream gRPC call) and wrapping goes on above it.
 type Wrap struct {
-	Pre  string `json:"pre"`
-	Post string `json:"post"`
+	Pre   string `json:"pre"`
+	Post  string `json:"post"`
+	Kind  string `json:"kind,omitempty"`
+	Sides []Side `json:"sides,omitempty"`
+	Pos   int    `json:"pos,omitempty"`
+	Mid   string `json:"mid,omitempty"`
+}
+
+// Level kinds.
+const (
+	LFmt  = ""
+	LJoin = "join"
+	LGRPC = "grpc"
+)
+
+// Side is an error of a side branch. It is never one of the library's classes and matches none of them with
+// errors.Is (a chain holds exactly one class): context.Canceled ("canceled"), context.DeadlineExceeded
+// ("deadline"), io.EOF ("eof") or errors.New(Text) ("new"). For the first three a non-empty Text wraps the
+// error once more: fmt.Errorf("%s%w", Text, base).
+type Side struct {
+	Kind string `json:"kind"`
+	Text string `json:"text,omitempty"`
+}
+
+// SideKinds lists the side error kinds.
+var SideKinds = []string{"canceled", "deadline", "eof", "new"}
+
+func sideError(sd Side) error {
+	var base error
+	switch sd.Kind {
+	case "canceled":
+		base = context.Canceled
+	case "deadline":
+		base = context.DeadlineExceeded
+	case "eof":
+		base = io.EOF
+	case "new":
+		return stderrors.New(sd.Text)
+	default:
+		panic("bad side kind " + sd.Kind)
+	}
+	if sd.Text != "" {
+		return fmt.Errorf("%s%w", sd.Text, base)
+	}
+	return base
+}
+
+// operands returns the side errors with the main error at index Pos (clamped).
+func operands(w Wrap, e error) []error {
+	pos := w.Pos
+	if pos < 0 {
+		pos = 0
+	}
+	if pos > len(w.Sides) {
+		pos = len(w.Sides)
+	}
+	ops := make([]error, 0, len(w.Sides)+1)
+	for i, sd := range w.Sides {
+		if i == pos {
+			ops = append(ops, e)
+		}
+		ops = append(ops, sideError(sd))
+	}
+	if pos == len(w.Sides) {
+		ops = append(ops, e)
+	}
+	return ops
+}
+
+// applyLevel wraps e by one level.
+func applyLevel(w Wrap, e error) error {
+	switch w.Kind {
+	case LFmt:
+		if len(w.Sides) == 0 {
+			return fmt.Errorf("%s%w%s", w.Pre, e, w.Post)
+		}
+		ops := operands(w, e)
+		format := "%s%w" + strings.Repeat("%s%w", len(ops)-1) + "%s"
+		args := make([]any, 0, 2*len(ops)+1)
+		args = append(args, w.Pre)
+		for i, op := range ops {
+			if i > 0 {
+				args = append(args, w.Mid)
+			}
+			args = append(args, op)
+		}
+		args = append(args, w.Post)
+		return fmt.Errorf(format, args...)
+	case LJoin:
+		return stderrors.Join(operands(w, e)...)
+	case LGRPC:
+		return gerrors.GRPCWrap(e)
+	}
+	panic("bad level kind " + w.Kind)
+}
+
+// neutral is the level with texts that cannot complete a marker.
+func neutral(w Wrap) Wrap {
+	n := Wrap{Pre: "[", Post: "]", Mid: " | ", Kind: w.Kind, Pos: w.Pos}
+	for _, sd := range w.Sides {
+		t := ""
+		if sd.Kind == "new" {
+			t = "side"
+		}
+		n.Sides = append(n.Sides, Side{Kind: sd.Kind, Text: t})
+	}
+	return n
+}
+
+func (w Wrap) texts() []string {
+	t := []string{w.Pre, w.Post, w.Mid}
+	for _, sd := range w.Sides {
+		t = append(t, sd.Text)
+	}
+	return t
 }
 
 // Obj is the embedded object.
@@ -89,7 +212,7 @@ type Obj struct {
 	X  map[string]string `json:"x,omitempty"`
 }
 
-// Chain is one wrapping chain around one class: Class is wrapped by Wraps[0], Wraps[1], ... ; if Embed >= 0,
+// Chain is one wrapping chain (a tree, when levels have side branches) around one class: Class is wrapped by Wraps[0], Wraps[1], ... ; if Embed >= 0,
 // errors.EmbedObject(Obj, e) is applied after the first Embed wraps (0 = directly on the class value,
 // len(Wraps) = outermost). Target > 0 asks for a finished chain whose err.Error() is Target bytes long: the
 // missing bytes are ASCII padding put where Pad says - "pre:k"/"post:k" (text of wrap level k mod depth),
@@ -132,6 +255,16 @@ type Info struct {
 	Repaired  bool // a wrap text would have completed a marker across a concatenation boundary and was replaced
 	ObjMarker bool // the object's strings contain the complete marker (escaped by JSON)
 	MaxLen    int  // longest err.Error() of a finished chain
+	MultiW    bool // a fmt.Errorf level with >= 2 %w verbs
+	Join      bool // an errors.Join level
+	SideKinds map[string]bool
+	SideFirst bool // a side branch precedes the branch with the class
+	SideDeep  bool // a side error is wrapped itself
+	Layered   bool // GRPCWrap at an inner level, wrapping continues above it
+	LayerEmb  bool // ... and the object is embedded above that inner GRPCWrap
+	LayerSide bool // ... and a side branch is added above it
+	GRPCLevel bool // some level is a GRPCWrap
+	Twins     bool // two chains of a batch around different classes render byte-identical messages
 	Boundary  bool // some finished chain is within 1 byte of a power of two >= 256
 	Pads      []string
 }
@@ -234,6 +367,23 @@ func padText(n int) string {
 	return strings.Repeat(padPattern, n/len(padPattern)+1)[:n]
 }
 
+// Twins returns two chains that render the same message byte for byte but hold different classes: the chain
+// itself with the text of class `other` added behind the class (", other-text" in front of the Post text of
+// level 0) and a chain around `other` in which the text of the chain's own class is part of the Pre text of level
+// 0. Only the %w structure tells them apart. ok=false if level 0 is not a plain fmt level directly on the class.
+func Twins(ch Chain, other string) (x, y Chain, ok bool) {
+	if len(ch.Wraps) == 0 || ch.Wraps[0].Kind != LFmt || len(ch.Wraps[0].Sides) > 0 || ch.Embed == 0 || other == ch.Class {
+		return ch, ch, false
+	}
+	const mid = ", "
+	w := ch.Wraps[0]
+	x, y = ch, ch
+	x.Wraps = append([]Wrap{{Pre: w.Pre, Post: mid + classByName(other).Error() + w.Post}}, ch.Wraps[1:]...)
+	y.Wraps = append([]Wrap{{Pre: w.Pre + classByName(ch.Class).Error() + mid, Post: w.Post}}, ch.Wraps[1:]...)
+	y.Class = other
+	return x, y, true
+}
+
 // built is a finished chain with everything the checks need.
 type built struct {
 	ch       Chain // after padding
@@ -260,8 +410,16 @@ func validate(ch Chain) {
 		panic("embed without an object")
 	}
 	for _, w := range ch.Wraps {
-		if !utf8.ValidString(w.Pre) || !utf8.ValidString(w.Post) || strings.Contains(w.Pre, marker) || strings.Contains(w.Post, marker) {
-			panic("wrap texts must be valid UTF-8 without the complete marker")
+		for _, t := range w.texts() {
+			if !utf8.ValidString(t) || strings.Contains(t, marker) {
+				panic("wrap texts must be valid UTF-8 without the complete marker")
+			}
+		}
+		if w.Kind != LFmt && w.Kind != LJoin && w.Kind != LGRPC {
+			panic("bad level kind " + w.Kind)
+		}
+		if w.Kind == LGRPC && len(w.Sides) > 0 {
+			panic("a grpc level has no side branches")
 		}
 	}
 }
@@ -280,13 +438,14 @@ func assemble(ch Chain) (e, eEmb error, repaired bool) {
 			break
 		}
 		w := ch.Wraps[k]
-		if strings.Count(w.Pre+e.Error()+w.Post, marker) != markers {
+		next := applyLevel(w, e)
+		if strings.Count(next.Error(), marker) != markers {
 			// the texts complete a marker across a concatenation boundary: outside EmbedObject's /
 			// ExtractObject's documented format, use neutral texts for this level instead
-			w = Wrap{Pre: "[", Post: "]"}
+			next = applyLevel(neutral(w), e)
 			repaired = true
 		}
-		e = fmt.Errorf("%s%w%s", w.Pre, e, w.Post)
+		e = next
 	}
 	return e, eEmb, repaired
 }
@@ -377,8 +536,9 @@ func runChains(chs []Chain, eager bool, info *Info) *vstat.Violation {
 	var texts []string
 	for n, ch := range chs {
 		validate(ch)
-		for _, w := range ch.Wraps {
-			texts = append(texts, w.Pre, w.Post)
+		for k, w := range ch.Wraps {
+			texts = append(texts, w.texts()...)
+			noteLevel(info, ch, k, w)
 		}
 		b := &built{ch: padded(ch), cls: classByName(ch.Class)}
 		bs[n] = b
@@ -414,6 +574,13 @@ func runChains(chs []Chain, eager bool, info *Info) *vstat.Violation {
 		}
 	}
 	for n, b := range bs {
+		for _, o := range bs[:n] {
+			if o.cls != b.cls && o.e.Error() == b.e.Error() {
+				info.Twins = true
+			}
+		}
+	}
+	for n, b := range bs {
 		if v := checkChain(b, info); v != nil {
 			if len(bs) > 1 {
 				v.Msg = fmt.Sprintf("chain %d of %d (all built before the first check): %s", n, len(bs), v.Msg)
@@ -422,6 +589,45 @@ func runChains(chs []Chain, eager bool, info *Info) *vstat.Violation {
 		}
 	}
 	return nil
+}
+
+// noteLevel records the shape classes of one level.
+func noteLevel(info *Info, ch Chain, k int, w Wrap) {
+	if w.Kind == LGRPC {
+		info.GRPCLevel = true
+		if k < len(ch.Wraps)-1 || ch.Embed > k {
+			info.Layered = true
+		}
+		if ch.Embed > k {
+			info.LayerEmb = true
+		}
+		for _, above := range ch.Wraps[k+1:] {
+			if len(above.Sides) > 0 {
+				info.LayerSide = true
+			}
+		}
+		return
+	}
+	if w.Kind == LJoin {
+		info.Join = true
+	}
+	if len(w.Sides) > 0 {
+		if w.Kind == LFmt {
+			info.MultiW = true
+		}
+		if w.Pos > 0 {
+			info.SideFirst = true
+		}
+		if info.SideKinds == nil {
+			info.SideKinds = map[string]bool{}
+		}
+		for _, sd := range w.Sides {
+			info.SideKinds[sd.Kind] = true
+			if sd.Kind != "new" && sd.Text != "" {
+				info.SideDeep = true
+			}
+		}
+	}
 }
 
 func clip(s string) string {
@@ -567,6 +773,23 @@ func (i Info) Classes() []string {
 	if i.Repaired {
 		c = append(c, "text_would_complete_marker_replaced")
 	}
+	add := func(b bool, s string) {
+		if b {
+			c = append(c, s)
+		}
+	}
+	add(i.Twins, "batch_chains_of_different_classes_with_identical_text")
+	add(i.MultiW, "level_fmt_with_several_%w")
+	add(i.Join, "level_errors_join")
+	add(i.SideFirst, "side_branch_before_the_class_branch")
+	add(i.SideDeep, "side_error_wrapped_itself")
+	for _, k := range SideKinds {
+		add(i.SideKinds[k], "side:"+k)
+	}
+	add(i.GRPCLevel, "level_grpcwrap")
+	add(i.Layered, "layered_wrapping_continues_above_inner_grpcwrap")
+	add(i.LayerEmb, "layered_object_embedded_above_inner_grpcwrap")
+	add(i.LayerSide, "layered_side_branch_above_inner_grpcwrap")
 	if i.ObjMarker {
 		c = append(c, "object_string_contains_marker")
 	}
